@@ -652,7 +652,7 @@ pub(crate) async fn exec_model_trace_world(t: Trace, prop: &'static str, w: Worl
                         "311" | "312" | "317" | "318" | "314" | "369" | "406" | "401" | "433" => P06 | P15 | P02,
                         "403" | "442" | "441" | "443" | "473" | "341" => P06 | P16 | P15 | P09,
                         // relayed lines that reach (or miss) somebody whose identity changed recently
-                        "WALLOPS" => P15 | P11 | P06,
+                        "WALLOPS" => P15 | P11 | P06 | P02,
                         "PRIVMSG" | "NOTICE" => P15 | P06 | P02,
                         "JOIN" | "PART" | "KICK" | "TOPIC" | "MODE" | "INVITE" => P15 | P06,
                         _ => 0,
